@@ -949,3 +949,129 @@ VARIANTS += [
  _fv('worker-fv-continue-after-success', 'flagged(early-exit/stop-after-success)',
      ('\t\t\tverificationOutcomes = []*VerificationOutcome{outcome}\n\t\t\treturn errDoneVerification\n', '\t\t\tverificationOutcomes = []*VerificationOutcome{outcome}\n\t\t\tcontinue\n')),
 ]
+
+# ---------------------------------------------------------------------------------------------------------------
+# second pass — the class "closure vs state struct": the captured locals become fields of one struct of the outer
+# function, and the callback (still a closure that does the work itself) reaches them through the captured struct
+
+def _si_text(decl):
+    t = _OLD_TAIL.replace('''	var verificationSucceeded bool
+	var verificationOutcomes []*VerificationOutcome
+	var verificationFailedErrorArray = []error{ErrorVerificationFailed{}}
+''', decl).replace('\tnumOfSignatureProcessed := 0\n', '')
+    for a, b in [('numOfSignatureProcessed', 'st.done'), ('verificationSucceeded', 'st.good'), ('verificationOutcomes', 'st.outcomes'), ('verificationFailedErrorArray', 'st.failed')]:
+        t = t.replace(a, b)
+    return t + '\ntype listingProgress struct {\n\tdone     int\n\tgood     bool\n\toutcomes []*VerificationOutcome\n\tfailed   []error\n}\n'
+
+_SI_PTR = [(N, _OLD_TAIL, _si_text('\tst := &listingProgress{failed: []error{ErrorVerificationFailed{}}}\n'))]
+_SI_VAL = [(N, _OLD_TAIL, _si_text('\tvar st listingProgress\n\tst.failed = []error{ErrorVerificationFailed{}}\n'))]
+
+def _si(name, expect, *more, **kw):
+    d = dict(name=name, file=N, expect=expect, edits=kw.pop('base', _SI_PTR) + [(N, f, r) for (f, r) in more])
+    d.update(kw)
+    return d
+
+VARIANTS += [
+ _si('shape-state-struct-inline', 'silent',
+     why='the books are fields of a struct the outer function allocates (st := &T{...}); the callback is still a closure and captures st'),
+ _si('shape-state-struct-inline-value', 'silent', base=_SI_VAL,
+     why='the same with a struct variable (var st T) captured by the callback'),
+ _si('state-struct-inline-leaks', 'flagged(callback/state-object)',
+     ('\ntype listingProgress struct {', '\nvar lastProgress *listingProgress\n\ntype listingProgress struct {'),
+     (_LIST, '\tlastProgress = st\n' + _LIST)),
+ _si('state-struct-inline-overwritten', 'flagged(callback/state-object)',
+     ('\t\t// process signatures\n', '\t\t// process signatures\n\t\tif len(signatureManifests) > 100 {\n\t\t\t*st = listingProgress{}\n\t\t}\n')),
+ _si('state-struct-inline-counter-reset', 'flagged(bound/counter)',
+     ('\t\t// process signatures\n', '\t\t// process signatures\n\t\tst.done = 0\n')),
+ _si('state-struct-inline-limit-gt', 'flagged(bound/guard)',
+     ('\t\t\tif st.done >= verifyOpts.MaxSignatureAttempts {\n\t\t\t\tbreak\n\t\t\t}', '\t\t\tif st.done > verifyOpts.MaxSignatureAttempts {\n\t\t\t\tbreak\n\t\t\t}')),
+ _si('state-struct-inline-flag-preset', 'flagged(early-exit/flag-only-on-success)',
+     ('\tst := &listingProgress{failed: []error{ErrorVerificationFailed{}}}\n', '\tst := &listingProgress{failed: []error{ErrorVerificationFailed{}}, good: verifyOpts.MaxSignatureAttempts > 50}\n')),
+ _si('state-struct-inline-value-success-without-flag', 'flagged(result/success-exit)', base=_SI_VAL,
+     *[('\tif !st.good {\n', '\tif !st.good && len(st.failed) > 1 {\n')]),
+ _si('state-struct-inline-value-continue-after-success', 'flagged(early-exit/stop-after-success)', base=_SI_VAL,
+     *[('\t\t\t// early break on success\n\t\t\treturn errDoneVerification\n', '\t\t\t// early break on success\n\t\t\tcontinue\n')]),
+]
+
+# ---------------------------------------------------------------------------------------------------------------
+# second pass — the per-signature worker cut at other statements: a worker that only fetches (function, results handed
+# back), a worker that only verifies and keeps the books (closure over the captured locals)
+
+_FH_OLD = '''			sigBlob, sigDesc, err := repo.FetchSignatureBlob(ctx, sigManifestDesc)
+			if err != nil {
+				return ErrorSignatureRetrievalFailed{Msg: fmt.Sprintf("unable to retrieve digital signature with digest %q associated with %q from the Repository, error : %v", sigManifestDesc.Digest, artifactRef, err.Error())}
+			}
+'''
+_FH_NEW = '''			sigBlob, sigDesc, err := fetchListed(ctx, repo, artifactRef, sigManifestDesc)
+			if err != nil {
+				return err
+			}
+'''
+_FH_FUNC = '''func fetchListed(ctx context.Context, repo registry.Repository, artifactRef string, sigManifestDesc ocispec.Descriptor) ([]byte, ocispec.Descriptor, error) {
+	sigBlob, sigDesc, err := repo.FetchSignatureBlob(ctx, sigManifestDesc)
+	if err != nil {
+		return nil, ocispec.Descriptor{}, ErrorSignatureRetrievalFailed{Msg: fmt.Sprintf("unable to retrieve digital signature with digest %q associated with %q from the Repository, error : %v", sigManifestDesc.Digest, artifactRef, err.Error())}
+	}
+	return sigBlob, sigDesc, nil
+}
+
+'''
+_FH = [(N, _FH_OLD, _FH_NEW), (N, 'func generateAnnotations(', _FH_FUNC + 'func generateAnnotations(')]
+
+_VH_OLD = _CL_BODY_OLD[_CL_BODY_OLD.index('\t\t\t// verify each signature\n'):]
+_VH_NEW = '''			good, err := verifyBlob(sigManifestDesc, sigBlob)
+			if err != nil {
+				return err
+			}
+			if good {
+				return errDoneVerification
+			}
+		}
+'''
+_VH_CLO = '''	verifyBlob := func(sigManifestDesc ocispec.Descriptor, sigBlob []byte) (bool, error) {
+		outcome, err := verifier.Verify(ctx, artifactDescriptor, sigBlob, opts)
+		if err != nil {
+			logger.Warnf("Signature %v failed verification with error: %v", sigManifestDesc.Digest, err)
+			if outcome == nil {
+				logger.Error("Got nil outcome. Expecting non-nil outcome on verification failure")
+				return false, err
+			}
+			outcome.Error = fmt.Errorf("failed to verify signature with digest %v, %w", sigManifestDesc.Digest, outcome.Error)
+			verificationFailedErrorArray = append(verificationFailedErrorArray, outcome.Error)
+			return false, nil
+		}
+		verificationSucceeded = true
+		verificationOutcomes = []*VerificationOutcome{outcome}
+		return true, nil
+	}
+'''
+_VH = [(N, _VH_OLD, _VH_NEW), (N, _LIST, _VH_CLO + _LIST)]
+
+def _mk(base):
+    def f(name, expect, *more, **kw):
+        d = dict(name=name, file=N, expect=expect, edits=base + [(N, a, b) for (a, b) in more])
+        d.update(kw)
+        return d
+    return f
+_fh, _vh = _mk(_FH), _mk(_VH)
+
+VARIANTS += [
+ _fh('shape-worker-fetch-only', 'silent',
+     why='the fetch and its error wrapping in a function that hands blob and descriptor back; the callback verifies and keeps the books'),
+ _fh('worker-fetch-only-error-nil', 'flagged(fail/fetch-error)',
+     ('\t\treturn nil, ocispec.Descriptor{}, ErrorSignatureRetrievalFailed{Msg: fmt.Sprintf("unable to retrieve', '\t\treturn nil, ocispec.Descriptor{}, nil\n\t}\n\tif err != nil {\n\t\treturn nil, ocispec.Descriptor{}, ErrorSignatureRetrievalFailed{Msg: fmt.Sprintf("unable to retrieve')),
+ _fh('worker-fetch-only-other-blob', 'flagged(callback/verify-fetched-blob)',
+     ('\treturn sigBlob, sigDesc, nil\n}\n', '\treturn append([]byte(sigDesc.MediaType), sigBlob...), sigDesc, nil\n}\n')),
+ _fh('worker-fetch-only-error-continue', 'flagged(fail/fetch-error)',
+     (_FH_NEW, _FH_NEW.replace('\t\t\t\treturn err\n', '\t\t\t\tcontinue\n'))),
+ _fh('worker-fetch-only-other-manifest', 'flagged(callback/fetch-listed-manifest)',
+     ('fetchListed(ctx, repo, artifactRef, sigManifestDesc)', 'fetchListed(ctx, repo, artifactRef, artifactDescriptor)')),
+ _vh('shape-worker-verify-only', 'silent',
+     why='the callback fetches; the verification and the bookkeeping are a closure of the outer function called in the loop'),
+ _vh('worker-verify-only-nil-outcome-goes-on', 'flagged(fail/nil-outcome)',
+     ('\t\t\t\treturn false, err\n', '\t\t\t\treturn false, nil\n')),
+ _vh('worker-verify-only-success-continues', 'flagged(early-exit/stop-after-success)',
+     ('\t\t\tif good {\n\t\t\t\treturn errDoneVerification\n\t\t\t}\n', '\t\t\tif good {\n\t\t\t\tcontinue\n\t\t\t}\n')),
+ _vh('worker-verify-only-other-blob', 'flagged(callback/verify-fetched-blob)',
+     ('verifyBlob(sigManifestDesc, sigBlob)', 'verifyBlob(sigManifestDesc, sigBlob[:len(sigBlob)/2])')),
+]
